@@ -112,7 +112,7 @@ def Rel (cfg : TagCfg) (ab : Ab) (ms ml : M (List TagEv)) : Prop :=
   | _, _ => False
 
 /-- abstract effect of an action on the label; `none` = the action must not occur there -/
-def absAct (a : ActName) (ab : Ab) : Option Ab :=
+def phAct (a : ActName) (ab : Ab) : Option Ab :=
   match a, ab with
   | _, .unreach => none
   | .createStartTag, .outClean => some .outClean
@@ -127,9 +127,9 @@ def absAct (a : ActName) (ab : Ab) : Option Ab :=
   | .emitTag, _ => none
   | _, ab => some ab
 
-def absCalls : List Call → Ab → Option Ab
+def phCalls : List Call → Ab → Option Ab
   | [], ab => some ab
-  | c :: cs, ab => match absAct c.act ab with | some ab' => absCalls cs ab' | none => none
+  | c :: cs, ab => match phAct c.act ab with | some ab' => phCalls cs ab' | none => none
 
 /-- `ab` may flow into a state labelled `tgt` -/
 def Ab.le : Ab → Ab → Bool
@@ -163,7 +163,7 @@ def callsOk (cs : List Call) : Bool := cs.all fun c => c.q || silentAct c.act
 
 def seqOkP (t : Table) (P : PLabels) (self : StateId) (q : ActSeq) : Bool :=
   callsOk q.calls &&
-  match absCalls q.calls (P.at self) with
+  match phCalls q.calls (P.at self) with
   | some ab => transOk t P self ab q.trans
   | none => false
 
@@ -173,7 +173,7 @@ def bodyOkP (t : Table) (P : PLabels) (self : StateId) : Body → Bool
 
 def stateOkP (t : Table) (P : PLabels) (i : StateId) (sd : StateDef) : Bool :=
   P.at i != .unreach &&
-  callsOk sd.enter && absCalls sd.enter (P.at i) == some (P.at i) &&
+  callsOk sd.enter && phCalls sd.enter (P.at i) == some (P.at i) &&
   sd.arms.all fun a => bodyOkP t P i a.body
 
 def allIdxP (p : StateId → StateDef → Bool) : List StateDef → StateId → Bool
@@ -203,7 +203,7 @@ def flowTrans (t : Table) (P : PLabels) (self : StateId) (ab : Ab) : Option Tran
   | some .gotoDyn => (textStates t).foldl (fun P j => P.flow j ab) P
 
 def flowSeq (t : Table) (self : StateId) (P : PLabels) (q : ActSeq) : PLabels :=
-  match absCalls q.calls (P.at self) with
+  match phCalls q.calls (P.at self) with
   | some ab => flowTrans t P self ab q.trans
   | none => P
 
@@ -226,7 +226,7 @@ def PhaseSide (t : Table) : Bool := PhaseOk t (phaseLabels t)
 def phaseWitnessFrom (t : Table) (P : PLabels) : List StateDef → StateId → List (StateId × Nat)
   | [], _ => []
   | sd :: rest, i =>
-    (if P.at i != .unreach && callsOk sd.enter && absCalls sd.enter (P.at i) == some (P.at i) then [] else [(i, 1000)]) ++
+    (if P.at i != .unreach && callsOk sd.enter && phCalls sd.enter (P.at i) == some (P.at i) then [] else [(i, 1000)]) ++
     ((List.range sd.arms.length).filter fun k =>
       match sd.arms[k]? with | some a => !bodyOkP t P i a.body | none => false).map (fun k => (i, k)) ++
     phaseWitnessFrom t P rest (i + 1)
